@@ -154,6 +154,8 @@ def run_op(op):
     solver = simsolver.SimSolver(fs, op.get("peer_plan", []), random.Random(op.get("peer_seed", 0)), clock)
     if "peer_default" in op:
         solver.default = op["peer_default"]
+    solver.keyed = op.get("peer_keyed", True)
+    solver.by_block = op.get("peer_by_block", {})
     forves = SimForves(fs, env.get("forves_plan"))
     records = {}
     out = io.StringIO()
